@@ -43,12 +43,19 @@ const ALPHA: [&str; 12] = ["a", "b", " ", "\t", "\n", "\n", "\r", "\r\n", "é", 
 fn one(out: &mut Out, ex: &mut Exec, s: &str) {
     let set = format!("src set {}", hexs(s.as_bytes()));
     let r = ex.line(&set); out.op(&set, &r);
+    queries(out, ex, s, &set, &r, "src line", "src pos");
+}
+
+/// every line and position query on the source `s` that the ops `line_op i` / `pos_op idx` speak about; `set` is the replay
+/// prefix that established it and `r` the reply that reported the line count
+fn queries(out: &mut Out, ex: &mut Exec, s: &str, set: &str, r: &str, line_op: &str, pos_op: &str) {
+    let set = set.to_string();
     let nl = s.bytes().filter(|b| *b == b'\n').count();
     if r != format!("lines={}", nl + 1) { out.fail(out.lines, format!("count_lines of {:?} -> {r}, expected {}", s, nl + 1), set.clone()); }
     let parts: Vec<&str> = s.split('\n').collect();
     let mut starts = vec![0usize]; for (i, b) in s.bytes().enumerate() { if b == b'\n' { starts.push(i + 1); } }
     for i in 0..nl + 4 {
-        let l = format!("src line {i}"); let r = ex.line(&l); out.op(&l, &r); out.evaluations += 1;
+        let l = format!("{line_op} {i}"); let r = ex.line(&l); out.op(&l, &r); out.evaluations += 1;
         let expect = if i <= nl { let raw = parts[i]; let t = raw.trim(); let lead = raw.len() - raw.trim_start().len();
             let a = starts[i] + if t.is_empty() { raw.len() - (raw.len() - raw.trim_end().len()) - 0 } else { lead };
             let a = if t.is_empty() { starts[i] + raw.trim_end().len() } else { a };
@@ -56,7 +63,7 @@ fn one(out: &mut Out, ex: &mut Exec, s: &str) {
         if r != expect { out.fail(out.lines, format!("line {i} of {:?}: {r}, expected {expect}", s), format!("{set}\n{l}")); }
     }
     for idx in 0..s.len() + 11 {
-        let l = format!("src pos {idx}"); let r = ex.line(&l); out.op(&l, &r); out.evaluations += 1;
+        let l = format!("{pos_op} {idx}"); let r = ex.line(&l); out.op(&l, &r); out.evaluations += 1;
         let line = if idx <= s.len() { s.as_bytes()[..idx].iter().filter(|b| **b == b'\n').count() } else { nl };
         let expect = format!("{} {}", line, idx - starts[line]);
         if r != expect { out.fail(out.lines, format!("get_pos_pair({idx}) of {:?}: {r}, expected {expect}", s), format!("{set}\n{l}")); }
@@ -88,5 +95,29 @@ pub fn gen(out: &mut Out, ex: &mut Exec, seed: u64, thorough: bool) {
         one(out, ex, &s);
         if out.samples.len() < 3 && s.contains('\n') { let mut j = Json::obj(); j.set("source", Json::s(format!("{:?}", s))); out.sample(j); }
     }
-    out.rule = format!("all strings of length <= {maxlen} over {{a, space, LF, CR}}, then random strings (length 0-40) over an alphabet rich in LF, CRLF, lone CR, tab, space, NBSP, U+2028, multi-byte letters; for each string every line index 0..lines+2 (span + text) and every byte index 0..len+10 (position pair); oracle recomputes the expected answers from the text with split/trim. distinct = distinct source strings");
+    // the same queries on the source text of a LINKED symbol table (the two sources joined by one line feed): two small
+    // programs whose texts end in comment lines over the rich alphabet, with and without trailing line breaks
+    let nl = if thorough { 3_000 } else { 150 };
+    for k in 0..nl {
+        let mut mk = |rng: &mut Rng, org: &str| -> String {
+            let mut t = format!(".orig {org}\nADD R0,R0,#0\n.end");
+            for _ in 0..rng.below(3) { t.push_str(if rng.chance(1, 4) { "\r\n" } else { "\n" }); t.push(';'); for _ in 0..rng.below(8) { t.push_str(*rng.pick(&["a", "b", " ", "\t", "é", "\u{00A0}", "\u{2028}", "x", "\r"])); } }
+            t.push_str(*rng.pick(&["", "\n", "\n\n", "\r\n", "  ", "\n \t"]));
+            t
+        };
+        let (a, b) = (mk(&mut rng, "x3000"), mk(&mut rng, "x4000"));
+        let l1 = format!("asm a 1 {}", hexs(a.as_bytes())); let r1 = ex.line(&l1); out.op(&l1, &r1);
+        let l2 = format!("asm b 1 {}", hexs(b.as_bytes())); let r2 = ex.line(&l2); out.op(&l2, &r2);
+        let l3 = "link c a b".to_string(); let r3 = ex.line(&l3); out.op(&l3, &r3);
+        if !(r1.starts_with("ok ") && r2.starts_with("ok ") && r3.starts_with("ok ")) { out.fail(out.lines, format!("linked-source case {k} could not be built: {} / {} / {}", &r1[..r1.len().min(40)], &r2[..r2.len().min(40)], &r3[..r3.len().min(40)]), format!("{l1}\n{l2}\n{l3}")); continue; }
+        let joined = format!("{a}\n{b}");
+        let l4 = "oq c srclines".to_string(); let r4 = ex.line(&l4); out.op(&l4, &r4);
+        let want = format!("lines={}", joined.bytes().filter(|x| *x == b'\n').count() + 1);
+        let pre = format!("{l1}\n{l2}\n{l3}\n{l4}");
+        if r4 != want { out.fail(out.lines, format!("count_lines of the linked source {:?} -> {r4}, expected {want}", joined), pre.clone()); }
+        queries(out, ex, &joined, &pre, &want, "oq c srcline", "oq c srcpos");
+        out.hist.hit("linked_source"); if a.ends_with('\n') { out.hist.hit("linked_first_ends_with_newline"); }
+        if seen.insert(joined) { out.nontrivial += 1; }
+    }
+    out.rule = format!("all strings of length <= {maxlen} over {{a, space, LF, CR}}, then random strings (length 0-40) over an alphabet rich in LF, CRLF, lone CR, tab, space, NBSP, U+2028, multi-byte letters; for each string every line index 0..lines+2 (span + text) and every byte index 0..len+10 (position pair); oracle recomputes the expected answers from the text with split/trim; then the same queries on the source of a linked symbol table (two debug-assembled programs ending in comment lines over that alphabet, with and without trailing line breaks; expected text = first + LF + second). distinct = distinct source strings");
 }
